@@ -369,10 +369,12 @@ class GeopackageCache(TileCacheBase):
             if tile.source or tile.coord is None:
                 continue
             x, y, level = tile.coord
-            coords.append(x)
-            coords.append(y)
-            coords.append(level)
-            tile_dict[(x, y, level)] = tile
+            if (x, y, level) not in tile_dict:
+                coords.append(x)
+                coords.append(y)
+                coords.append(level)
+            # a request may name a coordinate more than once: every tile object gets the data
+            tile_dict.setdefault((x, y, level), []).append(tile)
 
         if not tile_dict:
             # all tiles loaded or coords are None
@@ -394,10 +396,10 @@ class GeopackageCache(TileCacheBase):
 
             for row in cursor:
                 loaded_tiles += 1
-                tile = tile_dict[(row[0], row[1], row[2])]
                 data = row[3]
-                tile.size = len(data)
-                tile.source = ImageSource(BytesIO(data))
+                for tile in tile_dict[(row[0], row[1], row[2])]:
+                    tile.size = len(data)
+                    tile.source = ImageSource(BytesIO(data))
             cursor.close()
 
             coords = coords[999:]
